@@ -263,9 +263,36 @@ fn consistent_hash(st: &mut St) {
 }
 
 /// Backend for Retry: answers from a script, remembers the Arc it was given.
+/// error kinds a backend may return: 0 = server error, 1 = deadline exceeded, 2 = shutdown,
+/// 3 = send failure, 4 = channel failure
 struct Scripted {
     script: Vec<Result<u64, u32>>,
     seen: RefCell<Vec<Arc<u64>>>,
+}
+
+fn mk_err(kind: u32, attempt: usize) -> RpcError {
+    match kind {
+        0 => RpcError::Server(ServerError::new(std::io::ErrorKind::Other, format!("e{attempt}"))),
+        1 => RpcError::DeadlineExceeded,
+        2 => RpcError::Shutdown,
+        3 => RpcError::Send(format!("send{attempt}").into()),
+        5 => RpcError::Channel(tarpc::ChannelError::Write(Arc::new(std::io::Error::new(
+            std::io::ErrorKind::Other,
+            format!("chan{attempt}"),
+        ))
+            as Arc<dyn std::error::Error + Send + Sync>)),
+        _ => RpcError::Server(ServerError::new(std::io::ErrorKind::WouldBlock, format!("busy{attempt}"))),
+    }
+}
+
+fn show(r: &Result<u64, RpcError>) -> String {
+    match r {
+        Ok(v) => format!("Ok({v})"),
+        Err(RpcError::Server(e)) => format!("Server({:?},{})", e.kind, e.detail),
+        Err(RpcError::Send(e)) => format!("Send({e})"),
+        Err(RpcError::Channel(c)) => format!("Channel({c:?})"),
+        Err(e) => format!("{e:?}"),
+    }
 }
 impl Stub for &Scripted {
     type Req = Arc<u64>;
@@ -275,7 +302,7 @@ impl Stub for &Scripted {
         self.seen.borrow_mut().push(r);
         match self.script.get(k) {
             Some(Ok(v)) => Ok(*v),
-            Some(Err(e)) => Err(RpcError::Server(ServerError::new(std::io::ErrorKind::Other, format!("e{e}")))),
+            Some(Err(e)) => Err(mk_err(*e, k)),
             None => Ok(u64::MAX),
         }
     }
@@ -284,10 +311,13 @@ impl Stub for &Scripted {
 fn retry(st: &mut St, max_len: usize) {
     let ctx = context::current();
     for len in 1..=max_len {
-        for shape in 0..(1u32 << len) {
-            // result sequence: bit i set => attempt i+1 fails
+        for shape in 0..7u32.pow(len as u32) {
+            // result sequence: digit i (base 7) = 0: attempt i+1 succeeds, 1..=6: fails with that kind
             let script: Vec<Result<u64, u32>> = (0..len)
-                .map(|i| if shape & (1 << i) != 0 { Err(i as u32) } else { Ok(1000 + i as u64) })
+                .map(|i| {
+                    let d = (shape / 7u32.pow(i as u32)) % 7;
+                    if d == 0 { Ok(1000 + i as u64) } else { Err(d - 1) }
+                })
                 .collect();
             // every policy table over (is_ok, attempt) for attempts < len; the policy declines at attempt len
             for policy in 0..(1u32 << (2 * (len - 1))) {
@@ -330,18 +360,14 @@ fn retry(st: &mut St, max_len: usize) {
                 if seen.iter().any(|a| **a != 42 || !Arc::ptr_eq(a, &seen[0])) {
                     st.failures.push(("C20-retry-request-changed".into(), format!("{label}: the backend did not receive the identical request each time")));
                 }
-                let want = &script[(k - 1) as usize];
-                let got = match &out {
-                    Some(Ok(v)) => Ok(*v),
-                    Some(Err(RpcError::Server(e))) => Err(e.detail.clone()),
-                    other => Err(format!("{other:?}")),
-                };
-                let want_s = match want {
+                let want: Result<u64, RpcError> = match &script[(k - 1) as usize] {
                     Ok(v) => Ok(*v),
-                    Err(e) => Err(format!("e{e}")),
+                    Err(e) => Err(mk_err(*e, (k - 1) as usize)),
                 };
-                if got != want_s {
-                    st.failures.push(("C20-retry-result".into(), format!("{label}: returned {got:?}, last result was {want_s:?}")));
+                let got_s = out.as_ref().map(show).unwrap_or_else(|| "stuck".into());
+                let want_s = show(&want);
+                if got_s != want_s {
+                    st.failures.push(("C20-retry-result".into(), format!("{label}: returned {got_s}, last result was {want_s}")));
                 }
             }
         }
@@ -402,7 +428,7 @@ pub fn run_c20(tier: Tier) -> i32 {
         st.distinct.len() as u64,
         &st.failures,
         json!({"loom": loom_doc}),
-        "round robin: backends n in 1..5, every number of calls 0..12 x every pattern of which of two clones (sharing the cursor) issues each call: per-backend counts differ by <=1 at every prefix; 3 calls created then first-polled in every order (after 0..n earlier calls), re-polls do not move the cursor; thread level: loom explores the module text cut from load_balance.rs (std::sync -> loom::sync) with concurrent next() calls under a preemption bound. consistent hash: n in 1..5 x hashers (constant / request-derived / mixed) with values {0,1,n-1,n,n+1,2^63,u64::MAX} and RandomState: index always valid, equal requests -> same backend, across clones. retry: every result sequence of length <=4 over {Ok,Err} x every policy table over (is_ok, attempt): identical Arc each time, attempts 1,2,3.., last result returned. distinct_nontrivial = distinct grid cells",
+        "round robin: backends n in 1..5, every number of calls 0..12 x every pattern of which of two clones (sharing the cursor) issues each call: per-backend counts differ by <=1 at every prefix; 3 calls created then first-polled in every order (after 0..n earlier calls), re-polls do not move the cursor; thread level: loom explores the module text cut from load_balance.rs (std::sync -> loom::sync) with concurrent next() calls under a preemption bound. consistent hash: n in 1..5 x hashers (constant / request-derived / mixed) with values {0,1,n-1,n,n+1,2^63,u64::MAX} and RandomState: index always valid, equal requests -> same backend, across clones. retry: every result sequence of length <=4 over {Ok, Server error, DeadlineExceeded, Shutdown, Send failure, throttling error, Channel failure} x every policy table over (is_ok, attempt): identical Arc each time, attempts 1,2,3.., last result returned. distinct_nontrivial = distinct grid cells",
         vec![json!({"case": "rr n=3 calls=7 clone pattern 0b1010101"}), json!({"case": "retry results [Err(0), Ok(1001), Err(2)] policy 0b0110"}), json!({"case": "consistent hash n=4 hasher constant u64::MAX"})],
     )
 }
